@@ -4,6 +4,9 @@ CONSTANTS
   Texts <- CTexts
   Valid <- CValid
   HashOf <- CHashOf
+  ImplHash <- CHashOf
+  AltHashes <- CAlt
+  CanonOf <- CCanon
   WrongHashes <- CWrong
   Kinds <- CKinds
   Caps <- CCaps
